@@ -172,3 +172,32 @@ def reply_ttl_cases(rng, n):
             ops.append('op sreply 0 %d %d %s %d - %s' % (i, now, pipeline.rnd40(rng), rcode, ' '.join(attrs)))
         out.append(('replyttl-%d' % k, cfg.conf_lines() + cfg.cfg_lines() + ops))
     return out
+
+
+def username_restore_cases(rng, n):
+    """C02: the client's own User-Name comes back in the reply whatever the rewrite did to it -- in particular when
+    rewriteUsername changed letter case only (the expressions are compiled case-insensitively), changed the length,
+    or changed nothing; the server echoes the name it was given"""
+    out = []
+    rules = [(r'^(.*)@example\.com$', r'\1@example.com', lambda u: u.split(b'@')[0] + b'@example.com'),
+             (r'^(.*)@(.*)$', r'\1@\2', lambda u: u),
+             (r'^(.*)$', r'\1.inner', lambda u: u + b'.inner'),
+             # the rewritten name is a proper prefix of the original
+             (r'^(.*)\.x$', r'\1', lambda u: u[:-2] if u.endswith(b'.x') else u)]
+    names = [b'Alice@Example.COM', b'alice@EXAMPLE.com', b'alice@example.com', b'BOB@example.Com', b'carol@example.com.x']
+    for k in range(n):
+        cfg = _cfg1(rng)
+        rx, rp, f = rules[k % len(rules)]
+        cfg.clients[0].rwuser = (rx, rp)
+        ops = []
+        now = 1000005
+        for i, rcode in enumerate([2, 3, 5]):
+            code = 4 if rcode == 5 else 1
+            u = names[(k // len(rules) + i) % len(names)]
+            pkt, _ = _req(rng, cfg, 0, code, ident=40 + i, uname=u)
+            ops.append('op cpkt 0 %d %s %s' % (now, pipeline.rnd40(rng), hx(pkt)))
+            ops.append('op wpass 0 %d %s' % (now, pipeline.rnd40(rng)))
+            attrs = ['1:' + hx(f(u)), '18:' + hx(b'ok')] + (['80:auto'] if rcode != 5 else [])
+            ops.append('op sreply 0 %d %d %s %d - %s' % (i, now, pipeline.rnd40(rng), rcode, ' '.join(attrs)))
+        out.append(('unrestore-%d' % k, cfg.conf_lines() + cfg.cfg_lines() + ops))
+    return out
